@@ -443,7 +443,6 @@ harnesses! {
     @deep
     c19_zst: [2, 0] [2, 1] [2, 2] [2, 3] [2, 4] [2, 5] [2, 6] [2, 7] [2, 8] [2, 9] [2, 10] [2, 11];
     c19_nested: [2, 1] [2, 2];
-    c19_long: [2, 0] [2, 1] [2, 2] [2, 3] [2, 4];
     c19_map: [3, 0] [3, 1] [3, 2] [3, 3];
     c19_set: [3, 0] [3, 1] [3, 2] [3, 3];
     c19_map_iters: [2, 0] [2, 1] [2, 2] [2, 3] [2, 4] [2, 6] [2, 7] [2, 8] [3, 0] [3, 1] [3, 2] [3, 3] [3, 4] [3, 5] [3, 6] [3, 7] [3, 8];
